@@ -18,6 +18,7 @@ mod c12;
 mod codec;
 mod sym;
 mod c09;
+mod c03;
 mod c19;
 
 fn main() {
@@ -47,6 +48,8 @@ fn main() {
         ["c09", "replay", path] => c09::replay(path),
         ["c09", "record", runs, path] => c09::record(runs.parse().unwrap(), path),
         ["c09", "concretise", terms, trace] => c09::concretise(terms, trace),
+        ["c03", "replay", path] => c03::replay(path),
+        ["c03", "record", runs, path] => c03::record(runs.parse().unwrap(), path),
         _ => {
             eprintln!("usage: vh <prop> <replay|record> ...");
             std::process::exit(2);
